@@ -216,6 +216,9 @@ def kf_child_root_law(f):
     from urllib.parse import urlsplit
     bp = urlsplit(base).path
     bp = bp[:-1] if bp.endswith("/") else bp
+    qa = ref.quote(obs["a"], safe="@:", protected="/+", requote=False)
+    qb = ref.quote(obs["b"], safe="@:", protected="/+", requote=False)
+    obs = dict(obs, a=qa, b=qb)
     merged = (bp or "") + "/" + obs["a"] + "/" + obs["b"]
     if not _climbs_above_root_then_empty(merged):
         return False
